@@ -170,6 +170,38 @@ func ruleOneSection(r *Run, p *Program, rule string) {
 		if !bad {
 			r.ok(rule, k, p.Pos(f.Pos()), "DB.mu is acquired once and never re-acquired after a release within the operation", true)
 		}
+		// the iterator's own mutex: "is an item queued?" and "take it" are one critical section
+		if strings.HasSuffix(k, ".Next") {
+			var irel, iacq []Node
+			for nd := range w.Reached {
+				if _, isReg := nd.In.(*ssa.Defer); isReg {
+					continue
+				}
+				if l, op := lockOp(nodeCall(nd)); l == "iter" {
+					if op == "Unlock" {
+						irel = append(irel, nd)
+					} else {
+						iacq = append(iacq, nd)
+					}
+				}
+			}
+			if r.anchor(rule, k+": acquires ItemIterator.mu", len(iacq) > 0) {
+				ibad := false
+				if len(irel) > 0 {
+					w3 := &IPWalk{P: p}
+					w3.Run(root, irel)
+					for _, a := range iacq {
+						if w3.Reached[a] {
+							ibad = true
+							r.bad(rule, k+":iterator-mutex", p.Pos(instrPos(a.In)), k+" releases ItemIterator.mu and acquires it again: the check that an item is queued and its removal from the queue are separate critical sections, two goroutines sharing the iterator both see the same item (one then indexes an empty queue, or both return the same slices)", w3.PathTo(a)...)
+						}
+					}
+				}
+				if !ibad {
+					r.ok(rule, k+":iterator-mutex", p.Pos(f.Pos()), "ItemIterator.mu is acquired once per Next", true)
+				}
+			}
+		}
 	}
 	r.universe(rule, n, 6)
 }
